@@ -245,6 +245,7 @@ def c05(ck):
     cases += text_cases(ck, ["chain"], 4 if ck.quick else 8)
     cases += text_cases(ck, ["escseeds"], 3)
     cases += text_cases(ck, ["deep"], 3 if ck.quick else 6)
+    cases += text_cases(ck, ["nul"], 3 if ck.quick else 4)
     ck.replay(cases, args=["-prop", "C05"])
     ck.exhaustive = True
     ck.extra["alphabets"] = alph
@@ -290,6 +291,7 @@ def c16(ck):
     cases = text_cases(ck, ["tokens", "tokens2"], 4 if ck.quick else 5)
     cases += text_cases(ck, ["brackets", "macros"], 4)
     cases += text_cases(ck, ["deep"], 3 if ck.quick else 6)
+    cases += text_cases(ck, ["nul"], 4 if ck.quick else 5)
     seen = {}
     for c in cases:
         seen.setdefault(c["text"], c)
